@@ -209,11 +209,82 @@ func containsConnAcquire(n ast.Node) bool {
 }
 
 type pointInserter struct {
-	prefix string
-	n      int
-	labels *[]string
-	recv   string // receiver name of the method being instrumented
-	dn     int
+	prefix    string
+	n         int
+	labels    *[]string
+	recv      string // receiver name of the method being instrumented
+	dn        int
+	mapFields map[string]bool // names of struct fields of map type (package-wide, by name)
+	mapLocals map[string]bool // local variables of the function that hold maps
+}
+
+// localMaps collects identifiers of fd that are assigned make(map...) or a map
+// literal, or declared / received with a map type.
+func localMaps(fd *ast.FuncDecl) map[string]bool {
+	out := map[string]bool{}
+	isMapExpr := func(e ast.Expr) bool {
+		switch v := e.(type) {
+		case *ast.CompositeLit:
+			_, ok := v.Type.(*ast.MapType)
+			return ok
+		case *ast.CallExpr:
+			if id, ok := v.Fun.(*ast.Ident); ok && id.Name == "make" && len(v.Args) > 0 {
+				_, ok := v.Args[0].(*ast.MapType)
+				return ok
+			}
+		}
+		return false
+	}
+	if fd.Type.Params != nil {
+		for _, f := range fd.Type.Params.List {
+			if _, ok := f.Type.(*ast.MapType); ok {
+				for _, n := range f.Names {
+					out[n.Name] = true
+				}
+			}
+		}
+	}
+	ast.Inspect(fd, func(x ast.Node) bool {
+		switch v := x.(type) {
+		case *ast.AssignStmt:
+			for i, r := range v.Rhs {
+				if i < len(v.Lhs) && isMapExpr(r) {
+					if id, ok := v.Lhs[i].(*ast.Ident); ok {
+						out[id.Name] = true
+					}
+				}
+			}
+		case *ast.ValueSpec:
+			if _, ok := v.Type.(*ast.MapType); ok {
+				for _, n := range v.Names {
+					out[n.Name] = true
+				}
+			}
+			for i, r := range v.Values {
+				if i < len(v.Names) && isMapExpr(r) {
+					out[v.Names[i].Name] = true
+				}
+			}
+		}
+		return true
+	})
+	return out
+}
+
+// mapRange: the ranged-over expression is (as far as syntax tells) a map: a
+// struct field declared with a map type anywhere in the package, or a local
+// variable made with make(map...) / a map literal in the same function.
+func (p *pointInserter) mapRange(x ast.Expr) bool {
+	switch e := x.(type) {
+	case *ast.SelectorExpr:
+		return p.mapFields[e.Sel.Name]
+	case *ast.Ident:
+		return p.mapLocals[e.Name]
+	case *ast.CompositeLit:
+		_, ok := e.Type.(*ast.MapType)
+		return ok
+	}
+	return false
 }
 
 // dbTouching: the statement contains (outside function literals) a call on the
@@ -295,7 +366,9 @@ func (p *pointInserter) nestedD(s ast.Stmt) {
 	case *ast.ForStmt:
 		t.Body.List = p.instrumentListD(t.Body.List)
 	case *ast.RangeStmt:
-		t.Body.List = p.instrumentListD(t.Body.List)
+		if !p.mapRange(t.X) {
+			t.Body.List = p.instrumentListD(t.Body.List)
+		}
 	case *ast.SwitchStmt:
 		for _, c := range t.Body.List {
 			cc := c.(*ast.CaseClause)
@@ -347,7 +420,12 @@ func (p *pointInserter) nested(s ast.Stmt) {
 	case *ast.ForStmt:
 		t.Body.List = p.instrumentList(t.Body.List, false)
 	case *ast.RangeStmt:
-		t.Body.List = p.instrumentList(t.Body.List, false)
+		// the body of a loop over a map runs in an order the simulator does not
+		// own: points in there would make the number and sequence of scheduling
+		// decisions differ from run to run
+		if !p.mapRange(t.X) {
+			t.Body.List = p.instrumentList(t.Body.List, false)
+		}
 	case *ast.SwitchStmt:
 		for _, c := range t.Body.List {
 			cc := c.(*ast.CaseClause)
@@ -473,6 +551,19 @@ func main() {
 			}
 			changed := false
 			usedClock, usedOS, usedPoint := false, false, false
+			mapFields := map[string]bool{}
+			ast.Inspect(f, func(x ast.Node) bool {
+				if st, ok := x.(*ast.StructType); ok && st.Fields != nil {
+					for _, fl := range st.Fields.List {
+						if _, ok := fl.Type.(*ast.MapType); ok {
+							for _, n := range fl.Names {
+								mapFields[n.Name] = true
+							}
+						}
+					}
+				}
+				return true
+			})
 
 			if clockDir[dir] {
 				if n := rerouteSelectors(f, "time", "verifclock", clockNames); n > 0 {
@@ -510,13 +601,13 @@ func main() {
 				}
 				if points[k] || optPoints[k] || wild {
 					foundPoint[k] = true
-					pi := &pointInserter{prefix: filepath.Base(dir) + "." + k.name, labels: &labels, recv: recv}
+					pi := &pointInserter{prefix: filepath.Base(dir) + "." + k.name, labels: &labels, recv: recv, mapFields: mapFields, mapLocals: localMaps(fd)}
 					fd.Body.List = pi.instrumentList(fd.Body.List, connOnly[k])
 					usedPoint = true
 					changed = true
 				} else if dir == "internal/queue" && strings.HasPrefix(k.name, "SQLiteStore.") && name == "sqlite.go" {
 					// every other method of the SQLite store: "#d" points only
-					pi := &pointInserter{prefix: filepath.Base(dir) + "." + k.name, labels: &labels, recv: recv}
+					pi := &pointInserter{prefix: filepath.Base(dir) + "." + k.name, labels: &labels, recv: recv, mapFields: mapFields, mapLocals: localMaps(fd)}
 					before := len(labels)
 					fd.Body.List = pi.instrumentListD(fd.Body.List)
 					if len(labels) > before {
